@@ -201,7 +201,7 @@ P = D.DesignProperty(
     "C18", judge,
     rule=("case = (factors, constraint pool, ordered list of 2-4 block constructions referring to pool constraints by index); non-trivial = "
           "at least two blocks could be exhausted and some pool constraint object is used by at least two blocks; distinct = distinct case JSON"),
-    cfg_quick=CFG, n_quick=160, n_thorough=1500, case_limit=(30, 180), strategy=cases, uses_reference=False,
+    cfg_quick=CFG, n_quick=160, n_thorough=800, case_limit=(30, 180), strategy=cases, uses_reference=False,
     limits={"max_T": {"quick": 8, "thorough": 10}, "max_models": {"quick": 1500, "thorough": 10000}},
     assumptions=["the twin built by vp/build.py from the same description with fresh objects is the meaning the property refers to"])
 P.export(globals())
